@@ -30,6 +30,9 @@ incoming edges and the node deleted are `last`.
 INDEX-PRUNE - membership of an RList is key presence in the reverse map: every
 method that removes a position from a list of the map deletes the key when
 the list becomes empty.
+FLATTEN-FIXPOINT - flatten ends on a re-scan of self._nodes that finds no
+graph-node; a visited-set skip of an "already grafted" graph is
+recognised-wrong (a later graft brings a shared nested graph back).
 Not decided (value-level algorithms): topological sort, transitive reduction
 and closure, graft / flatten (including the known loss of ordering through an
 EMPTY nested graph, DESIGN section 4), isomorphism.
@@ -52,6 +55,7 @@ def check(ctx):
     ctx.run(depgraph.check_pair_shift)
     ctx.run(depgraph.check_swap_table)
     ctx.run(depgraph.check_index_prune)
+    ctx.run(depgraph.check_flatten_fixpoint)
     ctx.stats['functions_analysed'] = analyzer.functions_analysed
     ctx.stats['call_sites_resolved'] = analyzer.calls_resolved
 
@@ -221,4 +225,45 @@ def variants(program):
             lambda n: ast.If(test=parse_expr('len(indices) == 0'),
                              body=n.body, orelse=n.orelse))
     add('twin-emptiness-tested-with-len', 'twin', RLM, prune_with_len)
+    def flatten_worklist(tree):
+        # seed C16-r2-1
+        fun = find_func(tree, 'DepGraph.flatten')
+        doc = [s_ for s_ in fun.body if isinstance(s_, ast.Expr) and
+               isinstance(s_.value, ast.Constant)]
+        fun.body = doc + parse_stmts(
+            'todo = [n for n in self._nodes if isinstance(n, DepGraph)]\n'
+            'grafted = set()\n'
+            'while todo:\n'
+            '    node = todo.pop()\n'
+            '    if id(node) in grafted:\n'
+            '        continue\n'
+            '    grafted.add(id(node))\n'
+            '    self.graft(node)\n'
+            '    if recurse:\n'
+            '        todo.extend(n for n in node.nodes() '
+            'if isinstance(n, DepGraph))\n'
+            'return self')
+        return True
+    add('seed-flatten-skips-graphs-already-grafted', 'mutant', DGM,
+        flatten_worklist, {'FLATTEN-FIXPOINT'},
+        note='a nested graph shared between two places stays in the '
+             'flattened graph')
+
+    def flatten_for_rescan(tree):
+        fun = find_func(tree, 'DepGraph.flatten')
+        doc = [s_ for s_ in fun.body if isinstance(s_, ast.Expr) and
+               isinstance(s_.value, ast.Constant)]
+        fun.body = doc + parse_stmts(
+            'graphs = [n for n in self._nodes if isinstance(n, DepGraph)]\n'
+            'while graphs:\n'
+            '    for sub in graphs:\n'
+            '        self.graft(sub)\n'
+            '    if not recurse:\n'
+            '        break\n'
+            '    graphs = [n for n in self._nodes '
+            'if isinstance(n, DepGraph)]\n'
+            'return self')
+        return True
+    add('twin-flatten-renamed-locals', 'twin', DGM, flatten_for_rescan)
+
     return out
